@@ -1858,6 +1858,14 @@ func canHandleInbound(msg *stun.Message) bool {
 func (a *Agent) handleInboundResponse(
 	remoteCandidate, local Candidate, remote netip.AddrPort, msg *stun.Message,
 ) bool {
+	// Until the remote credentials are known (after a Restart) nothing can be
+	// authenticated: a response signed with the empty password must not pass.
+	if a.remotePwd == "" {
+		a.log.Warnf("Discard success response from (%s), remote credentials are not set", remote)
+
+		return false
+	}
+
 	if err := stun.MessageIntegrity([]byte(a.remotePwd)).Check(msg); err != nil {
 		a.log.Warnf("Discard success response with broken integrity from (%s), %v", remote, err)
 
